@@ -136,6 +136,15 @@ fn test(case: &Case, st: &mut Stats, counting: bool) -> CaseResult {
             let b = make_bytes(d);
             prepop.push((n - 1, PATHS[0].to_string(), Node::File(b.clone())));
             model.insert(PATHS[0].to_string(), b.as_ref().clone());
+            if n >= 3 && d.seed % 2 == 0 {
+                // the same name in two read-only layers with different bytes: the upper one is served
+                let mut d2 = d.clone();
+                d2.seed = d2.seed.wrapping_add(1);
+                d2.len = d2.len.wrapping_add(7);
+                let b2 = make_bytes(&d2);
+                prepop.push((n - 2, PATHS[0].to_string(), Node::File(b2.clone())));
+                model.insert(PATHS[0].to_string(), b2.as_ref().clone());
+            }
             facts.3 = true;
         }
         let built = build(&case.cfg, &prepop)?;
